@@ -37,6 +37,7 @@ struct ApiCase {
 struct ExecOpts {
   int prefill = 0;          // pattern for OUT and SCRATCH storage (0x00 / 0xFF / sNaN-like)
   size_t off[12] = {0};     // byte offset of each storage group's start from a 64-byte boundary
+  int adjacent = 0;  // 1 / 2: all storage groups packed back to back in ONE block, in ascending / descending buffer order (disjoint but touching operands)
   bool protect_inputs = false;  // read-only operands that share no storage with an output live in their own read-only mapping during the call
 };
 
@@ -77,11 +78,21 @@ inline void execute(const ApiCase& c, const ExecOpts& o, ExecResult& r) {
   for (int i = 0; i < nb; ++i) { int g = root_of(c, i); gbytes[g] = std::max(gbytes[g], c.bufs[i].bytes); }
   // a storage group is read-only when every buffer in it is a pure input
   std::vector<char> ro(nb, 0);
-  if (o.protect_inputs) for (int i = 0; i < nb; ++i) if (root_of(c, i) == i && c.bufs[i].bytes) { bool all_in = true; for (int j = 0; j < nb; ++j) if (root_of(c, j) == i && c.bufs[j].role != R_IN) all_in = false; ro[i] = all_in; }
-  for (int i = 0; i < nb; ++i) {
+  if (o.protect_inputs && !o.adjacent) for (int i = 0; i < nb; ++i) if (root_of(c, i) == i && c.bufs[i].bytes) { bool all_in = true; for (int j = 0; j < nb; ++j) if (root_of(c, j) == i && c.bufs[j].role != R_IN) all_in = false; ro[i] = all_in; }
+  // base address of every storage group
+  std::vector<uint8_t*> basep(nb, (uint8_t*)0);
+  GBuf arena;
+  if (o.adjacent) {
+    size_t tot = 0; for (int i = 0; i < nb; ++i) if (root_of(c, i) == i) tot += (gbytes[i] + 7) / 8 * 8;
+    arena.init(tot, o.off[0]);
+    prefill(arena.p, tot, o.prefill);
+    size_t pos = 0;
+    for (int k = 0; k < nb; ++k) { int i = o.adjacent == 1 ? k : nb - 1 - k; if (root_of(c, i) != i) continue; basep[i] = arena.p + pos; pos += (gbytes[i] + 7) / 8 * 8; }
+  } else for (int i = 0; i < nb; ++i) {
     if (root_of(c, i) != i) continue;
     if (ro[i]) store[i].init_pages(gbytes[i], i < 12 ? o.off[i] : 0); else store[i].init(gbytes[i], i < 12 ? o.off[i] : 0);
     prefill(store[i].p, gbytes[i], o.prefill);
+    basep[i] = store[i].p;
   }
   // inputs are written after the prefill, roots first
   for (int pass = 0; pass < 2; ++pass)
@@ -89,18 +100,18 @@ inline void execute(const ApiCase& c, const ExecOpts& o, ExecResult& r) {
       const Buf& b = c.bufs[i];
       bool isroot = root_of(c, i) == i;
       if ((pass == 0) != isroot) continue;
-      if ((b.role == R_IN || b.role == R_INOUT) && b.bytes) memcpy(store[root_of(c, i)].p, b.init.data(), b.bytes);
+      if ((b.role == R_IN || b.role == R_INOUT) && b.bytes) memcpy(basep[root_of(c, i)], b.init.data(), b.bytes);
     }
   std::vector<uint8_t*> ptr(nb);
   r.before.assign(nb, {});
   r.after.assign(nb, {});
   for (int i = 0; i < nb; ++i) {
-    ptr[i] = store[root_of(c, i)].p;
+    ptr[i] = basep[root_of(c, i)];
     r.before[i].assign(ptr[i], ptr[i] + c.bufs[i].bytes);
   }
   r.input_write_fault = -1;
   r.csr_before = __builtin_ia32_stmxcsr() & 0xFFC0u;
-  if (o.protect_inputs) {
+  if (o.protect_inputs && !o.adjacent) {
     input_trap_install();
     for (int i = 0; i < nb; ++i) if (ro[i]) store[i].protect(true);
     InputTrap& t = input_trap();
@@ -115,8 +126,9 @@ inline void execute(const ApiCase& c, const ExecOpts& o, ExecResult& r) {
   r.guards_ok = true;
   for (int i = 0; i < nb; ++i) {
     r.after[i].assign(ptr[i], ptr[i] + c.bufs[i].bytes);
-    if (root_of(c, i) == i && !store[i].guards_ok()) r.guards_ok = false;
+    if (!o.adjacent && root_of(c, i) == i && !store[i].guards_ok()) r.guards_ok = false;
   }
+  if (o.adjacent && !arena.guards_ok()) r.guards_ok = false;
 }
 
 inline std::string hexbytes(const uint8_t* p, size_t n) {
